@@ -87,7 +87,7 @@ class AttackGraphNode:
         copied_node = AttackGraphNode(
             self.type,
             self.name,
-            self.ttc,
+            copy.deepcopy(self.ttc, memo),
             self.id,
             self.asset,
             [],
